@@ -373,6 +373,32 @@ def _handler_provides_alternative(h: ast.ExceptHandler) -> bool:
     return True
 
 
+LOOKUP_CALLS = {"index", "int", "float", "next", "get", "pop", "remove", "getattr"}
+LOOKUP_EXCEPTIONS = CONTROL_FLOW_EXCEPTIONS | {"ValueError"}
+
+
+def _eafp_lookup(t: ast.Try, h: ast.ExceptHandler) -> bool:
+    """`try: <one simple statement whose only call is a container / conversion look-up>  except <lookup error>: <bind or return the fallback>`:
+    the exception is the look-up's "not there" answer, no build step runs inside the try, nothing a step reports can be hidden."""
+    if len(t.body) != 1 or t.orelse or t.finalbody or not isinstance(t.body[0], (ast.Assign, ast.Return, ast.Expr)):
+        return False
+    calls = [c for c in ast.walk(t.body[0]) if isinstance(c, ast.Call)]
+    if len(calls) > 1 or any(callee_tail(c) not in LOOKUP_CALLS for c in calls):
+        return False
+    if any(isinstance(n, (ast.Yield, ast.YieldFrom, ast.Await)) for n in ast.walk(t.body[0])):
+        return False
+    binds = False
+    for st in h.body:
+        if isinstance(st, (ast.Assign, ast.AnnAssign, ast.AugAssign)) or (isinstance(st, ast.Return) and st.value is not None):
+            binds = True
+        elif isinstance(st, ast.Expr) and isinstance(st.value, ast.Call) and isinstance(st.value.func, ast.Attribute) \
+                and st.value.func.attr in ("append", "add", "setdefault", "extend", "insert") and isinstance(st.value.func.value, ast.Name):
+            continue
+        else:
+            return False
+    return binds
+
+
 # reviewed handlers that deliberately recover: (function fq, exception type text) -> reason
 HANDLER_EXCEPTIONS = {
     ("color_glyph._intersect", "pathops.PathOpsError"): "conservative: assumes the paths intersect (decomposes rather than risking winding errors)",
@@ -479,6 +505,8 @@ def r09d_impl(model: Model, rr: RuleResult):
                         for t in types:
                             rr.exceptions_used.append(f"{fq} except {t}: {HANDLER_EXCEPTIONS[(fq, t)]}")
                         rr.ok(f"{fq}: except {ty} recovers (reviewed)")
+                    elif all(t.split(".")[-1] in LOOKUP_EXCEPTIONS for t in types) and _eafp_lookup(node, h):
+                        rr.ok(f"{fq}: except {ty} is the 'not found' answer of a look-up ({short(node.body[0], 50)})")
                     elif all(t.split(".")[-1] in CONTROL_FLOW_EXCEPTIONS for t in types) and _handler_provides_alternative(h):
                         # an arithmetic / lookup exception used as a test, with a fallback that yields a value for the same result: no failure is hidden
                         rr.ok(f"{fq}: except {ty} selects an alternative computation ({short(h.body[0], 50)})")
